@@ -19,8 +19,8 @@ Definition F_CSS := 8.
 Definition F_XML := 9.        (* html xml *)
 Definition F_MD := 10.
 
-(* by registered suffix, in the order of the reflected extension table *)
-Definition family_table : list (str * N) :=
+(* by suffix, as read off language_parsers/*.rs *)
+Definition family_hand : list (str * N) :=
   map (fun p => (T (fst p), snd p)) [
     ("Makefile", F_HASH); ("bash", F_BASH); ("c", F_C); ("cc", F_C); ("cpp", F_C); ("cs", F_CS);
     ("css", F_CSS); ("d.ts", F_C); ("go", F_C); ("go.mod", F_C); ("go.sum", F_C); ("go.work", F_C);
@@ -29,6 +29,24 @@ Definition family_table : list (str * N) :=
     ("mk", F_HASH); ("php", F_PHP); ("phtml", F_PHP); ("py", F_HASH); ("pyi", F_HASH); ("rb", F_HASH);
     ("rs", F_RUST); ("sh", F_BASH); ("sql", F_SQL); ("swift", F_LINEBLOCK); ("toml", F_HASH);
     ("ts", F_C); ("tsx", F_C); ("xml", F_XML); ("yaml", F_HASH); ("yml", F_HASH) ]%bs.
+
+(* The table the model uses is derived from the REFLECTED extension table: every registered suffix
+   gets the convention of the hand-listed suffixes that share its parser object (one parser object =
+   one visitor = one convention).  A new alias suffix of a known language is thereby covered; a
+   registered suffix whose parser object is shared with no hand-listed suffix has no entry
+   (Lang_proofs.every_class_known then fails: the model cannot vouch for that language). *)
+Fixpoint class_family_in (hand : list (str * N)) (c : N) : option N :=
+  match hand with
+  | [] => None
+  | (s, f) :: r =>
+    match assoc s ext_table with
+    | Some c' => if c' =? c then Some f else class_family_in r c
+    | None => class_family_in r c
+    end
+  end.
+Definition class_family (c : N) : option N := class_family_in family_hand c.
+Definition family_table : list (str * N) :=
+  flat_map (fun kv => match class_family (snd kv) with Some f => [(fst kv, f)] | None => [] end) ext_table.
 
 Definition is_block_comment (raw : str) : bool := starts_with (T "/*") raw.
 
